@@ -405,10 +405,12 @@
                    (new (cons (match-collect matches (cdr index))
                               (if (pair? prev) prev '()))))
               (regexp-match-set! matches (car index) new)))
+           ;; An end equal to the start is the stale end of the previous
+           ;; iteration of an enclosing loop and must be replaced.
            ((not (and (eq? 'non-greedy-left (state-match-rule st))
                       (regexp-match-ref matches index)
-                      (string-cursor>=? (regexp-match-ref matches index)
-                                        (regexp-match-ref matches (- index 1)))))
+                      (string-cursor>? (regexp-match-ref matches index)
+                                       (regexp-match-ref matches (- index 1)))))
             (regexp-match-set! matches index i))))))
       ;; Follow transitions.
       (cond
